@@ -10,7 +10,8 @@
 (*                                  rn, pn: Seq of species NAME ids (rank   *)
 (*                                  of the name string in sorted order),   *)
 (*                                  tmin, tmax : window in tenths of K,    *)
-(*                                  ty : type code, idx : index from file, *)
+(*                                  ty : type code, tn : id of the type's  *)
+(*                                  printed name, idx : index from file,   *)
 (*                                  hk : id of the reaction's hash value]  *)
 (* Species classes are the classes of Species.__eq__; name ids order the   *)
 (* names as Python's str < does.  Reaction objects are never shared        *)
@@ -50,7 +51,7 @@ EqDefault(a, b) ==
   /\ RpEq(a, b) /\ D(a).tmin = D(b).tmin /\ D(a).tmax = D(b).tmax
   /\ (D(a).ty = D(b).ty \/ D(a).ty = UNKNOWN \/ D(b).ty = UNKNOWN)
 MinKey(a)   == <<SortSeq(D(a).rn, <), SortSeq(D(a).pn, <)>>
-ShortKey(a) == <<MinKey(a), D(a).tmin, D(a).tmax, D(a).ty>>
+ShortKey(a) == <<MinKey(a), D(a).tmin, D(a).tmax, D(a).tn>>    \* "short" prints the type's NAME (tn), which each reader class chooses
 Equiv(mode, a, b) ==
   CASE mode = "default" -> EqDefault(a, b)
     [] mode = "brief"   -> RpEq(a, b)
